@@ -477,6 +477,12 @@ def _check_flat(case, d, bad, out):
             if case["anti"] and pos + 300 < length:
                 ab.append((c, pos, pos + 250, "Antitarget"))
                 pos += 250 + int(rng.integers(0, 60))
+        # on one chromosome in three a whole-gene bait spans all the others (nested bins: the last row by start is not
+        # the row that ends furthest right - seeded change C05o read one FASTA stretch per chromosome up to the last row's
+        # end and sliced every bin out of it)
+        mine = [b for b in tb if b[0] == c]
+        if len(mine) >= 2 and gen.pick(case, "nested" + c, 3) == 0:
+            tb.append((c, mine[0][1], min(length, mine[-1][2] + 300), "WHOLE"))
     tbed = os.path.join(d, "t.bed")
     with open(tbed, "w") as fh:
         for c, s, e, g in tb:
